@@ -32,7 +32,7 @@ func C02(r *core.Report) {
 	c02PrefetchIsBestEffort(r)
 	hitConfirmedByIndex(r, "C02.R9")
 	c02BlocktimeValueBlind(r)
-	r.Floor("C02.R10", 3)
+	r.Floor("C02.R10", 2)
 	r.Floor("C02.R8", 2)
 	for _, k := range []string{"main.(*Epoch).GetBlock", "main.(*Epoch).GetTransaction", "main.(*Epoch).GetNodeByCid", "main.(*Epoch).ReadAtFromCar"} {
 		if f := r.Anchor("C02.R7", k); f != nil {
